@@ -133,7 +133,22 @@ def _gen_case(r, cid, tier, known_bucket=False):
                            'up': chunk[:h], 'lo': chunk[h:],
                            'bk': 0})
     rules = None
-    if mode == 'rules' and coeffs:
+    if mode == 'rules' and coeffs and r.random() < 0.5:
+        # several tensors of one name in a term, exactly some of their blocks
+        # excluded (a rule must look at every tensor of the name)
+        kind = r.choice(['non', 'anti', 'sym'])
+        name = r.choice(['c', 'V', 'f'])
+        for c in coeffs:
+            idx = c['up'] + c.get('lo', [])
+            c.clear()
+            c.update({'t': kind, 'name': name, 'up': idx})
+            if kind != 'non':
+                h = r.randint(0, len(idx))
+                c.update({'up': idx[:h], 'lo': idx[h:], 'bk': 0})
+        present = sorted({''.join(ir.index_space(s)[0] for s in
+                                  c['up'] + c.get('lo', [])) for c in coeffs})
+        rules = {name: r.sample(present, r.randint(1, max(1, len(present) - 1)))}
+    elif mode == 'rules' and coeffs:
         rules = {}
         for c in coeffs:
             if r.random() < 0.8:
